@@ -480,6 +480,8 @@ def xer_content(t, v):
         et = t["el"]
         if et["k"] == "bool":
             return [("b", "true" if x else "false") for x in v[1]]
+        if et["k"] == "null":
+            return [("b", "NULL") for x in v[1]]        # (the library writes a NULL element of a list as <NULL/>)
         return [xer_elem(ELEM_TAG[et["k"]], et, x) for x in v[1]]
     raise ValueError(k)
 
